@@ -102,10 +102,78 @@ struct Cfg {
     set: bool,
     /// > 0: mixed use - this many next() calls, then one read_record_set into the reused set, repeated
     mixed: usize,
+    /// two-pass mode over records of two alternating lengths (set sizes go up and down): the whole
+    /// input is read once (warm-up), the reader seeks back to the start, and the identical second
+    /// pass is measured
+    varied: bool,
+}
+
+/// Two-pass mode: blocks of 7 short and 3 long records (same number of lines each), six times. The
+/// first pass takes every slot of the reused set and the reader's own vectors to the size they need;
+/// after seeking back to byte 0 the second pass repeats exactly the same calls on the same buffer
+/// alignment, so it must not allocate at all.
+fn run_two_pass(c: &Cfg) -> (u64, bool, usize, u64, String) {
+    let short = record_bytes(c.format, c.lines, c.line_len, c.crlf);
+    let long = record_bytes(c.format, c.lines, 3 * c.line_len + 2, c.crlf);
+    let mut template = vec![];
+    for _ in 0..6 {
+        for _ in 0..7 {
+            template.extend_from_slice(&short);
+        }
+        for _ in 0..3 {
+            template.extend_from_slice(&long);
+        }
+    }
+    let data = instantiate(&template);
+    let mut measured = 0u64;
+    macro_rules! two_pass {
+        ($m:ident) => {{
+            use seq_io::$m::{Position, Reader, Record, RecordSet};
+            let mut rdr = Reader::with_capacity(std::io::Cursor::new(&data[..]), c.cap).set_policy(CountPolicy(0));
+            let mut set = RecordSet::default();
+            let mut sink = 0usize;
+            let mut pass = |rdr: &mut Reader<std::io::Cursor<&[u8]>, CountPolicy>, set: &mut RecordSet, n: &mut u64, sink: &mut usize| loop {
+                for _ in 0..c.mixed {
+                    match rdr.next() {
+                        Some(Ok(r)) => {
+                            *sink += r.head().len() + r.seq().len();
+                            *n += 1;
+                        }
+                        _ => return,
+                    }
+                }
+                if c.set {
+                    if !matches!(rdr.read_record_set(set), Some(Ok(()))) {
+                        return;
+                    }
+                    for r in &*set {
+                        *sink += r.head().len() + r.seq().len();
+                        *n += 1;
+                    }
+                }
+            };
+            let mut warm = 0u64;
+            pass(&mut rdr, &mut set, &mut warm, &mut sink);
+            let (cap0, bc0) = (rdr.verif_capacity(), set.buf_capacity());
+            let seek_ok = rdr.seek(&Position::new(1, 0)).is_ok();
+            let a = measure(|| pass(&mut rdr, &mut set, &mut measured, &mut sink));
+            std::hint::black_box(sink);
+            let changed = !seek_ok || measured != warm || rdr.verif_capacity() != cap0 || set.buf_capacity() != bc0 || cap0 != c.cap;
+            (a, changed, rdr.policy().0, format!("first pass {} records, second pass {} records, seek ok {}, reader capacity {} -> {} (initial {}), set buffer capacity {} -> {}", warm, measured, seek_ok, cap0, rdr.verif_capacity(), c.cap, bc0, set.buf_capacity()))
+        }};
+    }
+    let (a, ch, p, i) = match c.format {
+        Format::Fasta => two_pass!(fasta),
+        Format::Fastq => two_pass!(fastq),
+    };
+    (a, ch, p, measured, i)
 }
 
 /// returns (allocations in the window, capacity changed, policy calls in the window, records measured)
 fn run_cfg(c: &Cfg) -> (u64, bool, usize, u64, String) {
+    if c.varied {
+        return run_two_pass(c);
+    }
     let rec = record_bytes(c.format, c.lines, c.line_len, c.crlf);
     let rl = rec.len();
     // warm-up: rl + 2 batches / records; measured window: 3 further periods
@@ -305,6 +373,7 @@ fn main() {
             cap: r["cap"].as_u64().unwrap() as usize,
             set: r["set"].as_bool().unwrap(),
             mixed: r["mixed"].as_u64().unwrap_or(0) as usize,
+            varied: r["varied"].as_bool().unwrap_or(false),
         };
         let a = run_cfg(&c);
         let b = run_cfg(&c);
@@ -328,15 +397,22 @@ fn main() {
                     let mut cap = rl + 1;
                     while cap <= 5 * rl {
                         for set in [false, true] {
-                            cfgs.push(Cfg { format, lines, line_len, crlf, cap, set, mixed: 0 });
+                            cfgs.push(Cfg { format, lines, line_len, crlf, cap, set, mixed: 0, varied: false });
                         }
                         for mixed in [1usize, 2, 3, 5] {
-                            cfgs.push(Cfg { format, lines, line_len, crlf, cap, set: true, mixed });
+                            cfgs.push(Cfg { format, lines, line_len, crlf, cap, set: true, mixed, varied: false });
                         }
                         cap += step;
                     }
                     for set in [false, true] {
-                        cfgs.push(Cfg { format, lines, line_len, crlf, cap: 65536, set, mixed: 0 });
+                        cfgs.push(Cfg { format, lines, line_len, crlf, cap: 65536, set, mixed: 0, varied: false });
+                    }
+                    // records of two lengths: every capacity from the long record + 1 to 4 long records
+                    let ll = record_bytes(format, lines, 3 * line_len + 2, crlf).len();
+                    for cap in (ll + 1..=4 * ll).chain([65536]) {
+                        for mixed in [0usize, 1, 3] {
+                            cfgs.push(Cfg { format, lines, line_len, crlf, cap, set: true, mixed, varied: true });
+                        }
                     }
                 }
             }
@@ -356,10 +432,10 @@ fn main() {
             let what = if allocs != 0 { "allocation" } else if pol != 0 { "policy-consulted" } else { "capacity-changed" };
             l.violation(Violation {
                 property: "C18".into(),
-                sig: format!("{}|{}|{}", c.format.name(), if c.mixed > 0 { "mixed" } else if c.set { "record-set" } else { "next" }, what),
-                detail: format!("{} records with {} sequence line(s) of {} bytes (crlf {}), capacity {}, {}: {} heap allocations in the measured window of {} records, {} policy calls; {}", c.format.name(), c.lines, c.line_len, c.crlf, c.cap, if c.mixed > 0 { format!("{} x next() then read_record_set, repeated", c.mixed) } else if c.set { "reused record set".to_string() } else { "next()".to_string() }, allocs, measured, pol, info),
+                sig: format!("{}|{}|{}", c.format.name(), if c.varied { "two-lengths" } else if c.mixed > 0 { "mixed" } else if c.set { "record-set" } else { "next" }, what),
+                detail: format!("{} records with {} sequence line(s) of {} bytes (crlf {}), capacity {}, {}: {} heap allocations in the measured window of {} records, {} policy calls; {}", c.format.name(), c.lines, c.line_len, c.crlf, c.cap, if c.varied { format!("blocks of 7 short and 3 long records, second identical pass after seeking back; {} x next() then read_record_set into the reused set, repeated", c.mixed) } else if c.mixed > 0 { format!("{} x next() then read_record_set, repeated", c.mixed) } else if c.set { "reused record set".to_string() } else { "next()".to_string() }, allocs, measured, pol, info),
                 weight: (c.cap + c.line_len * 1000) as u64,
-                replay: json!({"kind": "alloc", "format": c.format.name(), "lines": c.lines, "line_len": c.line_len, "crlf": c.crlf, "cap": c.cap, "set": c.set, "mixed": c.mixed}),
+                replay: json!({"kind": "alloc", "format": c.format.name(), "lines": c.lines, "line_len": c.line_len, "crlf": c.crlf, "cap": c.cap, "set": c.set, "mixed": c.mixed, "varied": c.varied}),
             });
         }
         if idx % 211 == 7 && l.samples.len() < 2 {
@@ -371,9 +447,9 @@ fn main() {
         Report {
             property: "C18".into(),
             tier: args[2].clone(),
-            rule: "formats x uniform record shapes (FASTA 1-3 sequence lines, FASTQ) x line lengths x LF/CRLF x EVERY capacity from record length + 1 to 5 record lengths (and 64 KiB) x {next(), read_record_set into one reused set, mixed use: k x next() then one read_record_set for k in 1,2,3,5}: warm-up over record length + 2 records / batches (a full period of the batch-size pattern), then 3 further periods measured with a counting global allocator (thread-local window) while all borrowed accessors are called: allocation count must be 0, reader capacity and RecordSet::buf_capacity() unchanged in the window and reader capacity = initial capacity (all records fit), policy never consulted in the whole run; non-trivial = every configuration (all measure > 0 records)".into(),
+            rule: "formats x uniform record shapes (FASTA 1-3 sequence lines, FASTQ) x line lengths x LF/CRLF x EVERY capacity from record length + 1 to 5 record lengths (and 64 KiB) x {next(), read_record_set into one reused set, mixed use: k x next() then one read_record_set for k in 1,2,3,5}: warm-up over record length + 2 records / batches (a full period of the batch-size pattern), then 3 further periods measured with a counting global allocator (thread-local window) while all borrowed accessors are called: allocation count must be 0, reader capacity and RecordSet::buf_capacity() unchanged in the window and reader capacity = initial capacity (all records fit), policy never consulted in the whole run; PLUS records of two alternating lengths (blocks of 7 short, 3 long, same line count; set sizes go up and down) at every capacity from the long record + 1 to 4 long records (and 64 KiB), reused set alone and mixed with 1 or 3 next() calls: the whole input is read once, the reader seeks back to byte 0 and the identical second pass must not allocate; non-trivial = every configuration (all measure > 0 records)".into(),
             exhaustive: true,
-            assumptions: vec!["allocations of the measured thread only; uniform record streams (records of varying shape may legitimately allocate when a slot of a reused set first meets a record with more lines)".into()],
+            assumptions: vec!["allocations of the measured thread only; uniform record streams, or a second identical pass over a stream of two record lengths (records of varying shape may legitimately allocate when a slot of a reused set first meets a record with more lines)".into()],
             extra: json!({"states_note": "states = configurations; transitions = records read inside measured windows"}),
         },
         tot,
